@@ -173,7 +173,7 @@ def _r2(model, res, c, m):
             res.violation('R2', site + ':roles', m.where(f),
                           'a label must decompose to [row record (digits group, its index, marker before the digits), column record (letters '
                           'group, its index, leading marker)]; got %s' % why, func='extract_label')
-    res.floor('traces of extract_label', n, 2)
+    res.soft_floor('traces of extract_label', n, 2)
 
 
 def _r3(model, res, m):
@@ -239,6 +239,11 @@ def _r3(model, res, m):
                     operands = it.args if isinstance(it, ast.Call) and sa.call_name(it) == 'zip' else [it]
                     for op_ in operands:
                         names = set(x.id for x in ast.walk(op_) if isinstance(x, ast.Name))
+                        for _ in range(3):      # locals derived from the label (digits = [... for c in reversed(label)])
+                            for nm in sorted(names):
+                                for st, val in sa.assignments_to(f, nm):
+                                    if val is not None:
+                                        names |= set(x.id for x in ast.walk(val) if isinstance(x, ast.Name))
                         okl = label_p in names
                         res.ob('R3', '%s:%s' % (m.name, fname), 'loop operand %s ranges over the whole label' % src(op_), okl)
                         if not okl:
